@@ -145,7 +145,7 @@ def dataflow_part(rep: Report, mods, t: str, rng: random.Random, runner) -> int:
     iso = isolated.run_isolated(items, timeout=120)
     # every program on which the analysis is not on the safe side goes through the rules that consume the analysis
     risky = [(f"dataflow-miss:{'+'.join(sorted(m))}:{form}:{i}", r, form) for i, (r, m) in enumerate(zip(recs, misses)) if m
-             for form in ("def", "module")]
+             for form in ("def", "module") if form == "def" or not dataflow.has_return(r["prog"])]
     cap = 16000 if t == "quick" else 400000
     if len(risky) > cap:
         risky = rng.sample(risky, cap)
